@@ -64,6 +64,16 @@ func newQLogReader(ctx context.Context, logger *slog.Logger, files []string) (*q
 // timestamp.  If the record is found, it sets qLogReader's position to point
 // to that line, so that the next ReadNext call returned this line.
 func (r *qLogReader) seekTS(ctx context.Context, timestamp int64) (err error) {
+	_, err = r.seekTSFound(ctx, timestamp)
+
+	return err
+}
+
+// seekTSFound is like [qLogReader.seekTS], but it also reports if the record
+// with the timestamp itself has been found.  found is false and err is nil if
+// the timestamp is newer than all records, in which case the position is set
+// to the start, so that the next ReadNext call returns the newest record.
+func (r *qLogReader) seekTSFound(ctx context.Context, timestamp int64) (found bool, err error) {
 	for i := len(r.qFiles) - 1; i >= 0; i-- {
 		q := r.qFiles[i]
 		_, _, err = q.seekTS(ctx, r.logger, timestamp)
@@ -77,11 +87,11 @@ func (r *qLogReader) seekTS(ctx context.Context, timestamp int64) (err error) {
 			} else if errors.Is(err, errTSTooLate) {
 				// Just seek to the start then.  timestamp is probably between
 				// the end of the previous one and the start of this one.
-				return r.SeekStart()
+				return false, r.SeekStart()
 			} else if errors.Is(err, errTSNotFound) {
-				return err
+				return false, err
 			} else {
-				return fmt.Errorf("seekts: file at index %d: %w", i, err)
+				return false, fmt.Errorf("seekts: file at index %d: %w", i, err)
 			}
 		}
 
@@ -90,14 +100,14 @@ func (r *qLogReader) seekTS(ctx context.Context, timestamp int64) (err error) {
 		// qLogFile.
 		r.currentFile = i
 
-		return nil
+		return true, nil
 	}
 
 	if err != nil {
-		return fmt.Errorf("seekts: %w", err)
+		return false, fmt.Errorf("seekts: %w", err)
 	}
 
-	return nil
+	return false, nil
 }
 
 // SeekStart changes the current position to the end of the newest file.
